@@ -13,7 +13,8 @@
 (*             SetSect through one handle is seen through all of them and  *)
 (*             by the date object's own pillar accessors;                  *)
 (*   of[h]     which date object a chart handle belongs to;                *)
-(*   holv[d]   the last fix-up applied to holiday day d (0 = built-in).    *)
+(*   holv[d]   the last fix-up applied to holiday day d (0 = built-in);    *)
+(*   names     which list of festival names is in use (0 = built-in).      *)
 (*                                                                         *)
 (* The year-table cache (Cache.tla) is deliberately NOT part of this       *)
 (* state: C09 says no result may depend on it.  An observation is a        *)
@@ -40,42 +41,49 @@ FixDate(k) == ((k - 1) % NDate) + 1
 \* instant i lies on holiday day InstDate(i) (0 = on none of them); overridden by the model / the trace
 CONSTANT InstDate(_)
 
-VARIABLES live, of, holv
+VARIABLES live, of, holv, names
 
-svars == << live, of, holv >>
+svars == << live, of, holv, names >>
 
 TypeOK ==
   /\ live \in [Objs -> [t : 0..NInst, sect : {1, 2}]]
   /\ of \in [Handles -> 0..NObj]
   /\ holv \in [Dates -> 0..NFix]
+  /\ names \in {0, 1}
 
 SInit ==
   /\ live = [o \in Objs |-> [t |-> 0, sect |-> 2]]
   /\ of = [h \in Handles |-> 0]
   /\ holv = [d \in Dates |-> 0]
+  /\ names = 0
 
 \* o := NewSolar(instant).GetLunar(): a fresh object, chart convention 2 (the documented default)
 Create(o, t) ==
   /\ live[o].t = 0
   /\ live' = [live EXCEPT ![o] = [t |-> t, sect |-> 2]]
-  /\ UNCHANGED << of, holv >>
+  /\ UNCHANGED << of, holv, names >>
 
 \* h := o.GetEightChar(): no state change except that the client now holds a handle
 Handle(h, o) ==
   /\ of[h] = 0 /\ live[o].t # 0
   /\ of' = [of EXCEPT ![h] = o]
-  /\ UNCHANGED << live, holv >>
+  /\ UNCHANGED << live, holv, names >>
 
 \* h.SetSect(s): changes the object the handle is a view of, and nothing else
 SetSect(h, s) ==
   /\ of[h] # 0
   /\ live' = [live EXCEPT ![of[h]].sect = s]
-  /\ UNCHANGED << of, holv >>
+  /\ UNCHANGED << of, holv, names >>
 
 \* HolidayUtil.Fix(record k): last writer wins for that day, all other days unchanged
 Fix(k) ==
   /\ holv' = [holv EXCEPT ![FixDate(k)] = k]
-  /\ UNCHANGED << live, of >>
+  /\ UNCHANGED << live, of, names >>
+
+\* HolidayUtil.Fix(list v of festival names, no records): every record is shown under the new list from now on
+Rename(v) ==
+  /\ names' = v
+  /\ UNCHANGED << live, of, holv >>
 
 \* a constructor call with invalid arguments that panics and is recovered by the client
 Bad == UNCHANGED svars
@@ -85,13 +93,14 @@ SNext ==
   \/ \E h \in Handles, o \in Objs : Handle(h, o)
   \/ \E h \in Handles, s \in {1, 2} : SetSect(h, s)
   \/ \E k \in FixIds : Fix(k)
+  \/ \E v \in {0, 1} : Rename(v)
   \/ Bad
 
 (***************************************************************************)
 (* What each observation may depend on.                                    *)
 (***************************************************************************)
 HolOf(t) == IF t = 0 \/ InstDate(t) = 0 THEN 0 ELSE holv[InstDate(t)]
-HolKey(d) == << d, holv[d] >>                                  \* HolidayUtil.GetHoliday(d)
+HolKey(d) == << d, holv[d], names >>                           \* HolidayUtil.GetHoliday(d)
 SolarKey(o) == << live[o].t, HolOf(live[o].t) >>               \* every accessor of o.GetSolar() (pay rate reads the table)
 LunarKey(o) == << live[o].t, live[o].sect, HolOf(live[o].t) >> \* every accessor of o (pillar accessors go through the chart)
 ChartKey(h) == LunarKey(of[h])                                 \* every accessor of the chart behind handle h
